@@ -12,12 +12,14 @@ package main
 
 import (
 	"bufio"
+	"context"
 	"bytes"
 	"encoding/json"
 	"fmt"
 	"io"
 	"os"
 	"sync"
+	"sync/atomic"
 
 	capnp "capnproto.org/go/capnp/v3"
 	"capnproto.org/go/capnp/v3/internal/verifh/vwalk"
@@ -130,7 +132,24 @@ func emit(v interface{}) {
 	outMu.Unlock()
 }
 
+// countHook is an instrumented capability: it only counts Shutdown calls.
+type countHook struct {
+	m, i  int
+	shuts int32
+}
+
+func (h *countHook) Send(ctx context.Context, s capnp.Send) (*capnp.Answer, capnp.ReleaseFunc) {
+	return capnp.ErrorAnswer(s.Method, fmt.Errorf("verif hook")), func() {}
+}
+func (h *countHook) Recv(ctx context.Context, r capnp.Recv) capnp.PipelineCaller {
+	r.Reject(fmt.Errorf("verif hook"))
+	return nil
+}
+func (h *countHook) Brand() capnp.Brand { return capnp.Brand{Value: h} }
+func (h *countHook) Shutdown()          { atomic.AddInt32(&h.shuts, 1) }
+
 type world struct {
+	hooks  map[[2]int]*countHook
 	msgs   []*capnp.Message
 	segs0  []*capnp.Segment
 	objs   map[int]interface{} // id -> capnp.Struct | capnp.List
@@ -399,16 +418,19 @@ func (r *runner) count(k string, n int) {
 }
 
 func (r *runner) runOne(bi int, b *behaviour, ac arenaCfg, full bool) {
-	w := &world{objs: map[int]interface{}{}}
+	w := &world{objs: map[int]interface{}{}, hooks: map[[2]int]*countHook{}}
 	for i := 0; i < b.NMsgs; i++ {
 		m, seg, err := capnp.NewMessage(newArena(ac))
 		if err != nil {
 			emit(J{"beh": bi, "arena": ac.Name, "step": 0, "path": "newmessage", "diff": err.Error()})
 			return
 		}
-		// two capability-table entries, as the model assumes
-		m.AddCap(nil)
-		m.AddCap(nil)
+		// two capability-table entries, as the model assumes: instrumented capabilities <<m, 0>>, <<m, 1>>
+		for k := 0; k < 2; k++ {
+			h := &countHook{m: i + 1, i: k}
+			w.hooks[[2]int{i + 1, k}] = h
+			m.AddCap(capnp.NewClient(h))
+		}
 		w.msgs = append(w.msgs, m)
 		w.segs0 = append(w.segs0, seg)
 	}
@@ -420,6 +442,9 @@ func (r *runner) runOne(bi int, b *behaviour, ac arenaCfg, full bool) {
 		r.count("ops", 1)
 		exps := op["exp"].([]interface{})
 		last := si == len(b.Ops)-1
+		if d := w.checkCapTables(op["captab"].([]interface{})); d != "" {
+			emit(J{"beh": bi, "arena": ac.Name, "step": si + 1, "path": "captable", "diff": d, "op": op})
+		}
 		for mi, m := range w.msgs {
 			exp := exps[mi]
 			// (a) read back through the library's own accessors
@@ -451,7 +476,67 @@ func (r *runner) runOne(bi int, b *behaviour, ac arenaCfg, full bool) {
 				r.roundTrips(bi, ac, si+1, mi+1, m, exp)
 			}
 		}
+		if last {
+			if d := w.resetAll(op["captab"].([]interface{})); d != "" {
+				emit(J{"beh": bi, "arena": ac.Name, "step": si + 1, "path": "reset", "diff": d})
+			}
+		}
 	}
+}
+
+// checkCapTables compares every message's capability table with the model's: same length, and
+// entry k denotes the capability the model names (copied capability pointers get a fresh entry
+// denoting the source's capability), and no capability has been shut down while referenced.
+func (w *world) checkCapTables(exp []interface{}) string {
+	for mi, m := range w.msgs {
+		want := exp[mi].([]interface{})
+		if len(m.CapTable) != len(want) {
+			return fmt.Sprintf("message %d: capability table has %d entries, spec says %d", mi+1, len(m.CapTable), len(want))
+		}
+		for k, e := range want {
+			id := e.([]interface{})
+			key := [2]int{num(id[0]), num(id[1])}
+			h := w.hooks[key]
+			c := m.CapTable[k]
+			if h == nil {
+				continue
+			}
+			got, _ := c.State().Brand.Value.(*countHook)
+			if got != h {
+				return fmt.Sprintf("message %d: capability table entry %d does not denote capability %v", mi+1, k, key)
+			}
+			if atomic.LoadInt32(&h.shuts) != 0 {
+				return fmt.Sprintf("capability %v was shut down while message %d still references it", key, mi+1)
+			}
+		}
+	}
+	return ""
+}
+
+// resetAll resets the messages one by one; a capability must be shut down exactly when the last
+// message whose table references it has been reset.
+func (w *world) resetAll(exp []interface{}) string {
+	for mi, m := range w.msgs {
+		m.Reset(capnp.SingleSegment(nil))
+		// capabilities still referenced by a later message must be alive, all others shut down exactly once
+		alive := map[[2]int]bool{}
+		for mj := mi + 1; mj < len(w.msgs); mj++ {
+			for _, e := range exp[mj].([]interface{}) {
+				id := e.([]interface{})
+				alive[[2]int{num(id[0]), num(id[1])}] = true
+			}
+		}
+		for key, h := range w.hooks {
+			n := atomic.LoadInt32(&h.shuts)
+			switch {
+			case alive[key] && n != 0:
+				return fmt.Sprintf("after resetting messages 1..%d capability %v (still referenced by a later message) was shut down", mi+1, key)
+			case !alive[key] && n != 1:
+				return fmt.Sprintf("after resetting messages 1..%d capability %v (referenced by no remaining message) was shut down %d times, want 1", mi+1, key, n)
+			}
+		}
+	}
+	return ""
 }
 
 // roundTrips pushes the finished message through every serialisation path.
